@@ -4,6 +4,12 @@ PID = "C17"
 # thorough runs two canonical enumerations one after the other: A = all trees of depth <= 2 by weight (80 % of the time),
 # B = the trees of depth exactly 3 (three nested composites, <= 2 plain leaves; weight class 6 of the same order) (20 %)
 TIERS = {"quick": (6, 2, 1, 1, 40, 12), "thorough": (8, 5, 3, 2, 1100, 16)}
+# side lanes (same harness, other program families / op menus), run next to enumeration A:  lane -> (history depth, max weight, max composites, max depth, min depth, processes)
+#   X = one composite level over the library's own leaves (SleepAction 50 ms, FunctionAction, all overloads) and "late" probe leaves (complete although paused/stopped meanwhile)
+#   N = two nested composites (one representative mode per kind, arity <= 2), leaves S0/F1 (+ one B1 / flip / a timeout on the INNER composite)
+#   T = one composite level, root timeout set / set again / withdrawn while the tree is under way (ops set-timeout, reset-timeout)
+LANES = {"quick": {"X": (6, 2, 1, 1, 0, 4), "N": (6, 4, 2, 2, 2, 4), "T": (7, 2, 1, 1, 0, 2)},
+         "thorough": {"X": (7, 3, 1, 1, 0, 6), "N": (7, 5, 2, 2, 2, 6), "T": (8, 3, 1, 1, 0, 4)}}
 ASAN = "detect_leaks=0:abort_on_error=0:quarantine_size_mb=32"
 def replay(exe, path):
     """./check C17 --replay replays/C17/<tier>_<n>.replay : re-run every recorded (program, history) and print its full trace and verdict."""
@@ -14,8 +20,13 @@ def replay(exe, path):
         m = re.match(r"(\S+) :: program#(\d+) (.*?) ; history: (.*?) ; ", line)
         if not m:
             continue
-        fam = [str(depth), "6", "3", "3"] if m.group(1).startswith("B:") else [str(depth), str(maxw), str(maxc), str(maxd)]
-        argv = [exe, "replay"] + fam + [m.group(2), m.group(4)] + (["3"] if m.group(1).startswith("B:") else [])
+        lane = m.group(1)[0]
+        if lane in LANES[tier]:
+            d, w, c, dd, mind, _ = LANES[tier][lane]
+            argv = [exe, "replay", str(d), str(w), str(c), str(dd), m.group(2), m.group(4), str(mind), lane]
+        else:
+            fam = [str(depth), "6", "3", "3"] if lane == "B" else [str(depth), str(maxw), str(maxc), str(maxd)]
+            argv = [exe, "replay"] + fam + [m.group(2), m.group(4)] + (["3"] if lane == "B" else [])
         out = subprocess.run(argv, capture_output=True, env=dict(os.environ, ASAN_OPTIONS=ASAN)).stdout.decode()
         print(out.strip())
         if m.group(3) not in out:
@@ -33,12 +44,21 @@ def main(tier, args):
     dl = int(os.environ.get("VERIF_DEADLINE_S", dl))
     res = vf.Result(); log = open(vf.BUILD + "/C17/log.txt", "w")
     parts = range(np) if not args.only else [int(args.only)]
-    dl_a = dl if tier == "quick" else int(dl * 0.8)
-    vf.run_procs(res, [("A:p%d" % i, [exe, "run", str(i), str(np), str(depth), str(maxw), str(maxc), str(maxd)]) for i in parts],
-                 env={"VERIF_DEADLINE_S": str(dl_a), "ASAN_OPTIONS": ASAN}, log=log)
+    dl_a = dl if tier == "quick" else int(dl * 0.7)
+    dl_b = 0 if tier == "quick" else int(dl * 0.15)
+    def lanes(deadline):
+        cmds = []
+        for lane, (d, w, c, dd, mind, n) in sorted(LANES[tier].items()):
+            cmds += [("%s:p%d" % (lane, i), [exe, "run", str(i), str(n), str(d), str(w), str(c), str(dd), str(mind), lane], {"VERIF_DEADLINE_S": str(deadline)}) for i in range(n)]
+        return cmds
+    cmds_a = [("A:p%d" % i, [exe, "run", str(i), str(np), str(depth), str(maxw), str(maxc), str(maxd)]) for i in parts]
+    # quick: the side lanes run next to enumeration A (they are small); thorough: A, then B, then the side lanes, each with its share of the deadline
+    vf.run_procs(res, cmds_a + (lanes(dl) if tier == "quick" and not args.only else []), env={"VERIF_DEADLINE_S": str(dl_a), "ASAN_OPTIONS": ASAN}, log=log)
     if tier != "quick":
         vf.run_procs(res, [("B:p%d" % i, [exe, "run", str(i), str(np), str(depth), "6", "3", "3", "3"]) for i in parts],
-                     env={"VERIF_DEADLINE_S": str(dl - dl_a), "ASAN_OPTIONS": ASAN}, log=log)
+                     env={"VERIF_DEADLINE_S": str(dl_b), "ASAN_OPTIONS": ASAN}, log=log)
+        if not args.only:
+            vf.run_procs(res, lanes(dl - dl_a - dl_b), env={"ASAN_OPTIONS": ASAN}, log=log)
     # at most 3 replays per signature over all processes: the shortest ones (totals stay in counters viol[<sig>])
     best = {}
     for v in sorted(res.viols, key=lambda v: len(v[1])):
